@@ -373,8 +373,17 @@ func (w *SrvWorld) checkE2ETCP() {
 			}
 			if rt.Err != nil {
 				if rt.Expect && clean && w.expectationHolds(rc, rt) {
-					w.K.Violate(&Violation{Property: "C16", Class: "e2e-" + rt.How + "-failed", Key: nil,
-						Detail: fmt.Sprintf("%s #%d (peer %s, %d..%d ns) failed although the peer was there, permitted and in time: %v", rt.How, rt.Idx, rt.Want, rt.T0, rt.T1, rt.Err)})
+					detail := fmt.Sprintf("%s #%d (peer %s, %d..%d ns, %.0f s after AllocateTCP) failed although the peer was there, permitted and in time: %v", rt.How, rt.Idx, rt.Want, rt.T0, rt.T1, float64(rt.T0-rc.allocAt)/1e9, rt.Err)
+					w.K.Violate(&Violation{Property: "C16", Class: "e2e-" + rt.How + "-failed", Key: nil, Detail: detail})
+					if rt.T0-rc.allocAt > 290*sec {
+						// (C14) the allocation is a live client's: past the first refresh horizons it has to
+						// work as on its first day - refreshed allocation, refreshed permissions, current nonce
+						horizon := "first-hour"
+						if rt.T0-rc.allocAt > 3500*sec {
+							horizon = "beyond-nonce-hour"
+						}
+						w.K.Violate(&Violation{Property: "C14", Class: "tcp-relay-dead", Key: kv("how", rt.How, "horizon", horizon), Detail: detail})
+					}
 				}
 				continue
 			}
